@@ -542,3 +542,161 @@ class SetLedThreeBoards:
         code = 1 if action is None else (3 if action else 2)
         return (len(_trace) == 1 and _trace[0][1] == cabinet and _trace[0][2] == frame and _trace[0][3] == board[0]
                 and _trace[0][4] == (("arg1", code * 2 ** (2 * led)), ("arg2", 2 ** board[0] + 2 ** board[1] + 2 ** board[2])))
+
+
+from rig.utils.contexts import ContextMixin, Required   # noqa: E402
+
+# ---- the wrapper built by ContextMixin.use_contextual_arguments: the REAL decorator and the REAL closure f_, executed on scenarios ------
+# A controller method  m(self, a, x=Required, y=Required, p=0)  with the keyword-only contextual argument app_id=Required; the blocks in
+# force are what get_context_arguments() returns (its own contract: innermost block wins): here x, app_id and one name the method
+# does not take.  What the introspection helper reports for m is assumed (T: inspect).
+
+
+def _target(self, a, x=Required, y=Required, p=0, **kwargs):
+    """stands for a controller method declared with contextual arguments (never executed: recorded)"""
+
+
+def _wrapped():
+    return ContextMixin.use_contextual_arguments(app_id=Required)(_target)
+
+
+def call_with_y(obj, a, ky):
+    return _wrapped()(obj, a, y=ky)
+
+
+def call_with_everything(obj, a, kx, ky, kp, kapp):
+    return _wrapped()(obj, a, x=kx, y=ky, p=kp, app_id=kapp)
+
+
+def call_positionally(obj, a, px, py):
+    return _wrapped()(obj, a, px, py)
+
+
+def call_without_y(obj, a):
+    return _wrapped()(obj, a)
+
+
+def _argspec(E, args, kwargs, st, node):
+    from pyvc.values import ListV as _L
+    return [(st, (_L(("self", "a", "x", "y", "p")), NONE, "kwargs", (E.lift(Required), E.lift(Required), 0)))]
+
+
+def _ctx_args(E, obj, args, kwargs, st, node):
+    from pyvc.engine import ConstDict
+    ent = E.options["entry"]
+    if "g_cx" not in ent:
+        return [(st, ConstDict([]), None)]          # (the scenario without any block)
+    return [(st, ConstDict([("x", ent["g_cx"]), ("cabinet", ent["g_other"]), ("p", ent["g_cp"]), ("app_id", ent["g_capp"])]), None)]
+
+
+def _target_rec(E, args, kwargs, st, node):
+    s = st.copy()
+    s.trace = ListV(s.trace.items + (("called", tuple(args[1:]), tuple(sorted(kwargs.items()))),))
+    return [(s, NONE)]
+
+
+_WRAP_EXT = {"_getargspec": _argspec, "Controller.get_context_arguments": _ctx_args, "def:_target": _target_rec}
+_WRAP_ASSUME = ["what inspect reports for the method (names, defaults) is given; get_context_arguments() returns the blocks' values (own contract); "
+                "the method itself is recorded"]
+_G = dict(g_cx=TInt(), g_capp=TInt(), g_other=TInt(), g_cp=TInt())
+
+
+@contract("specs/c18_context.py::call_with_y")
+class WrapperCallThenBlocksThenDefault:
+    """m(a, y=ky) inside blocks that set x, p and app_id: y from the call, x, p and app_id from the blocks (the block's p beats
+    the method's default); a name the blocks set but the method does not take is not passed on"""
+    properties = ("C18",)
+    params = dict(obj=TRec("Controller"), a=TInt(), ky=TInt(), **_G)
+    externals = _WRAP_EXT
+    raises = {"TypeError": None}
+    assumptions = _WRAP_ASSUME
+
+    def native(a):
+        raise __import__("pyvc.replay", fromlist=["OutsideHarness"]).OutsideHarness()
+
+    def raises_TypeError(a):
+        return False
+
+    def ensures_call_then_blocks_then_default(a, ky, g_cx, g_capp, g_cp, _trace):
+        return len(_trace) == 1 and _trace[0] == ("called", (a,), (("app_id", g_capp), ("p", g_cp), ("x", g_cx), ("y", ky)))
+
+
+@contract("specs/c18_context.py::call_with_everything")
+class WrapperCallBeatsBlocks:
+    """every argument given with the call: the blocks' values are not used at all - whatever the values are (also a value
+    equal to the method's default, 0, or equal to what a block says)"""
+    properties = ("C18",)
+    params = dict(obj=TRec("Controller"), a=TInt(), kx=TInt(), ky=TInt(), kp=TInt(), kapp=TInt(), **_G)
+    externals = _WRAP_EXT
+    raises = {"TypeError": None}
+    assumptions = _WRAP_ASSUME
+
+    def native(a):
+        raise __import__("pyvc.replay", fromlist=["OutsideHarness"]).OutsideHarness()
+
+    def raises_TypeError(a):
+        return False
+
+    def ensures_the_calls_own_values(a, kx, ky, kp, kapp, _trace):
+        return len(_trace) == 1 and _trace[0] == ("called", (a,), (("app_id", kapp), ("p", kp), ("x", kx), ("y", ky)))
+
+
+@contract("specs/c18_context.py::call_positionally")
+class WrapperPositionalArguments:
+    """x and y given positionally: passed on positionally, not overridden by the blocks' x; p and app_id from the blocks"""
+    properties = ("C18",)
+    params = dict(obj=TRec("Controller"), a=TInt(), px=TInt(), py=TInt(), **_G)
+    externals = _WRAP_EXT
+    raises = {"TypeError": None}
+    assumptions = _WRAP_ASSUME
+
+    def native(a):
+        raise __import__("pyvc.replay", fromlist=["OutsideHarness"]).OutsideHarness()
+
+    def raises_TypeError(a):
+        return False
+
+    def ensures_positional_values_kept(a, px, py, g_capp, g_cp, _trace):
+        return len(_trace) == 1 and _trace[0] == ("called", (a, px, py), (("app_id", g_capp), ("p", g_cp)))
+
+
+@contract("specs/c18_context.py::call_without_y")
+class WrapperMissingRequired:
+    """y comes from nowhere (not the call, not a block, no default): the command is refused - TypeError - and the method not called"""
+    properties = ("C18",)
+    params = dict(obj=TRec("Controller"), a=TInt(), **_G)
+    externals = _WRAP_EXT
+    raises = {"TypeError": None}
+    assumptions = _WRAP_ASSUME
+
+    def native(a):
+        raise __import__("pyvc.replay", fromlist=["OutsideHarness"]).OutsideHarness()
+
+    def raises_TypeError(_trace):
+        return len(_trace) == 0
+
+    def ensures_never_returns(a):
+        return False
+
+
+def call_outside_any_block(obj, a, kx, ky, kapp):
+    return _wrapped()(obj, a, x=kx, y=ky, app_id=kapp)
+
+
+@contract("specs/c18_context.py::call_outside_any_block")
+class WrapperDefaultWhenNothingElse:
+    """no block in force: what the call gives is used and p takes the method's own default"""
+    properties = ("C18",)
+    params = dict(obj=TRec("Controller"), a=TInt(), kx=TInt(), ky=TInt(), kapp=TInt())
+    externals = _WRAP_EXT
+    raises = {"TypeError": None}
+    assumptions = _WRAP_ASSUME
+
+    def native(a):
+        raise __import__("pyvc.replay", fromlist=["OutsideHarness"]).OutsideHarness()
+
+    def raises_TypeError(a):
+        return False
+
+    def ensures_default_for_what_nobody_gives(a, kx, ky, kapp, _trace):
+        return len(_trace) == 1 and _trace[0] == ("called", (a,), (("app_id", kapp), ("p", 0), ("x", kx), ("y", ky)))
